@@ -2494,6 +2494,51 @@ func ruleWitnessCoveredShortcut(c *Ctx) {
 			c.Fail("witness-covered-shortcut.pooled-tx", c.P.Pos(poolIf.Pos()), "Blockchain.AddBlock skips the verification of a transaction whose hash is in the node's pool; the hash does not cover the witnesses, so a relayed copy of a valid block in which a pooled transaction's witness was replaced is accepted (block hash and Merkle root are unchanged) and the garbage witness is stored")
 		}
 	}
+	// (3) the second acceptor: statesync.Module.AddBlock stores the blocks below the sync point; it knows their headers
+	// (verified when they were added) and compares hashes - the same shortcut, the same obligation
+	if sd := c.P.Func("pkg/core/statesync", "Module", "AddBlock"); sd != nil {
+		sf := c.P.NewFuncCFG(sd)
+		stores := sf.CallSites("pkg/core/dao.(*Simple).StoreAsBlock")
+		var looks []site
+		for _, b := range sf.G.Blocks {
+			if !b.Live {
+				continue
+			}
+			for k, nd := range b.Nodes {
+				hit := false
+				inspectNoLit(nd, func(x ast.Node) bool {
+					switch y := x.(type) {
+					case *ast.SelectorExpr:
+						if v, ok := sf.Info.ObjectOf(y.Sel).(*types.Var); ok && v.IsField() && symOf(v) == "pkg/core/block#Script" {
+							hit = true
+						}
+					case *ast.CallExpr:
+						if strings.HasSuffix(sf.calleeSym(y), ".VerifyWitness") {
+							hit = true
+						}
+					}
+					return true
+				})
+				if hit {
+					looks = append(looks, site{blk: b, idx: k, node: nd})
+				}
+			}
+		}
+		switch {
+		case len(stores) == 0:
+			c.Lost("witness-covered-shortcut.statesync.store", "statesync.Module.AddBlock no longer calls StoreAsBlock")
+		case len(looks) == 0:
+			c.Fail("witness-covered-shortcut.statesync", c.P.Pos(sd.Decl.Pos()), "statesync.Module.AddBlock compares the block hash with the known header's and stores the block: the hash does not cover the witness, so a copy of the block with any other witness replaces the verified header in the database and is what the node serves")
+		default:
+			if ok, path := sf.mustBefore(sf.Entry(), stores, looks, symAssume("pkg/config#SkipBlockVerification", false)); ok {
+				c.OK("witness-covered-shortcut.statesync", c.P.Pos(looks[0].node.Pos()), "the block's witness is compared with the verified header's (or verified) before the block is stored")
+			} else {
+				c.Fail("witness-covered-shortcut.statesync", c.P.Pos(stores[0].call.Pos()), "a path of statesync.Module.AddBlock stores the block without looking at its witness", path...)
+			}
+		}
+	} else {
+		c.Lost("witness-covered-shortcut.statesync.anchor", "statesync.Module.AddBlock not found")
+	}
 }
 
 // ---------------------------------------------------------------------------
